@@ -20,7 +20,7 @@ PROPS['C19'] = dict(
     # compiler-conditional code (__has_builtin, version tests) takes its other arm there (seeded change C19-I)
     configs=lambda tier: [dict(name='mt', harness=['h_mt_codec.c'], hflags=['-DVF_MT=19'], flavour='tsan', nworkers=1), dict(name='default'), dict(name='clang', libcc='clang', nworkers=4), dict(name='o2', libflavour='san-o2', libdrop=['-fno-strict-aliasing'], nworkers=4),
                           # the caller's rounding mode as a hidden input (seeded change C19-J): every case runs under one of the four rounding modes
-                          dict(name='fenv', hflags=['-DVF_FENV_ROTATE'], nworkers=4)],
+                          dict(name='fenv', hflags=['-DVF_FENV_ROTATE', '-DVF_X87PC_ROTATE'], nworkers=4)],
     parallel_configs=5,
     level='exploration',
     rule='inputs are enumerated (exhaustive ranges, k^2 and k^2+-1, 2^n and 2^n+-1, all pairs <1024) or drawn at random with '
@@ -94,7 +94,7 @@ def _note_fenv(spec):
 
 def _with_fenv(spec):
     base = spec['configs'] if 'configs' in spec else (lambda tier: [dict(name='default')])
-    spec['configs'] = lambda tier: base(tier) + [dict(name='fenv', hflags=['-DVF_FENV_ROTATE'], nworkers=4, of=8)]
+    spec['configs'] = lambda tier: base(tier) + [dict(name='fenv', hflags=['-DVF_FENV_ROTATE', '-DVF_X87PC_ROTATE'], nworkers=4, of=8)]
     spec['parallel_configs'] = spec.get('parallel_configs', 1) + 1
     _note_fenv(spec)
 
